@@ -142,6 +142,14 @@ class GradHistory:
                 out.rejected = "%s: %s" % (type(e).__name__, e)
                 return out
             (x * 2.0).backward(seed("s1", (2,), g1))
+        elif name == "leaf0d_root_twice_then_mixed":
+            # a 0-d leaf used as the root of backward twice (default seed, then an explicit one), then reached through a graph
+            # with an operand of the other floating type: the accumulated gradient stays an array of the leaf's own type
+            x0 = Tn(env.arr("x0", (), dt), requires_grad=True)
+            x0.backward()
+            x0.backward(seed("s1", (), g1))
+            (x0 * w).backward(seed("s2", (1, 2), g2))
+            watch.append(("x0", x0))
         elif name == "recast_then_reset":
             # the tensor's data is re-bound in the other floating type after a first backward (what the initialisers do with
             # parameters); after a reset the gradient follows the tensor's current type
@@ -157,8 +165,10 @@ class GradHistory:
         for nm, t in watch:
             gr = gradof(t)
             if gr is None:
-                if nm == "w" and name != "mixed_operands":
+                if nm == "w" and name not in ("mixed_operands", "leaf0d_root_twice_then_mixed"):
                     continue
+                if nm == "x" and name == "leaf0d_root_twice_then_mixed":
+                    continue        # not used in that history
                 out.fact("%s has a gradient" % nm, False, "no .grad after the history")
                 continue
             out.fact("grad(%s) keeps dtype and shape over the history" % nm,
@@ -170,7 +180,7 @@ class GradHistory:
 
 GRAD_HISTORIES = ["leaf_root_twice", "accumulate", "leaf_root_after_graph", "mixed_operands", "retained_root_twice",
                   "default_seed", "reset_between", "interior_then_root", "foreign_buffer_then_reset", "recast_then_reset",
-                  "foreign_buffer_then_accumulate"]
+                  "foreign_buffer_then_accumulate", "leaf0d_root_twice_then_mixed"]
 
 
 def build(spec):
